@@ -88,6 +88,64 @@ theorem ones_solves (sp : Finset S) (el : Finset E) (c : S → E → K) (Ael : E
   have := hA s hs
   field_simp
 
+/-! ### the driver: `SetReferenceAbund` followed by `Renorm` -/
+
+/-- `GetElementAbund(y, i)`: the count-weighted sum over all species -/
+def total (sp : Finset S) (c : S → E → K) (y : S → K) (i : E) : K := ∑ s ∈ sp, c s i * y s
+
+/-- `SetReferenceAbund(ref, 0)`: `ab_ref_[i] = ref[i] / ref[IDX_ELEM_H]` -/
+def setRef0 (ref : E → K) (h : E) : E → K := fun i => ref i / ref h
+
+/-- `SetReferenceAbund(ref, 1)`: `ab_ref_[i] = GetElementAbund(ref, i) / GetHNuclei(ref)` -/
+def setRef1 (sp : Finset S) (c : S → E → K) (ref : S → K) (h : E) : E → K :=
+  fun i => total sp c ref i / total sp c ref h
+
+theorem setRef0_h (ref : E → K) (h : E) (hh : ref h ≠ 0) : setRef0 ref h h = 1 := div_self hh
+
+theorem setRef1_h (sp : Finset S) (c : S → E → K) (ref : S → K) (h : E) (hh : total sp c ref h ≠ 0) :
+    setRef1 sp c ref h h = 1 := div_self hh
+
+/-- the abundance vector after `RenormAbundance` -/
+def renormed (el : Finset E) (c : S → E → K) (Ael : E → K) (Asp : S → K) (r : E → K) (y : S → K) : S → K :=
+  fun s => y s * fac el c Ael Asp r s
+
+/-- **C16 (driver, element abundances given).** `SetReferenceAbund(ref, 0)` then `Renorm(y)`: with
+    `Hnuclei = GetHNuclei(y) ≠ 0` and `r` the solution of the generated system for the stored reference,
+    every element's total relative to the hydrogen total of the renormalised vector is `ref_i / ref_H` –
+    whatever units `ref` is given in. -/
+theorem driver_opt0 (sp : Finset S) (el : Finset E) (c : S → E → K) (Ael : E → K) (Asp : S → K)
+    (y : S → K) (ref r : E → K) (h i : E) (hh : h ∈ el) (hi : i ∈ el) (href : ref h ≠ 0)
+    (hH : total sp c y h ≠ 0)
+    (hsolve : ∀ i ∈ el, ∑ e ∈ el, M sp c Ael Asp y (total sp c y h) i e * r e = setRef0 ref h i) :
+    total sp c (renormed el c Ael Asp r y) i / total sp c (renormed el c Ael Asp r y) h = ref i / ref h := by
+  have := renorm_ratio sp el c Ael Asp y (total sp c y h) r (setRef0 ref h) hH hsolve h i hh hi (setRef0_h ref h href)
+  simpa [total, renormed, setRef0] using this
+
+/-- **C16 (driver, reference vector given).** The same with `SetReferenceAbund(refvec, 1)`: the new ratios
+    are those of the reference abundance vector. -/
+theorem driver_opt1 (sp : Finset S) (el : Finset E) (c : S → E → K) (Ael : E → K) (Asp : S → K)
+    (y refv : S → K) (r : E → K) (h i : E) (hh : h ∈ el) (hi : i ∈ el) (href : total sp c refv h ≠ 0)
+    (hH : total sp c y h ≠ 0)
+    (hsolve : ∀ i ∈ el, ∑ e ∈ el, M sp c Ael Asp y (total sp c y h) i e * r e = setRef1 sp c refv h i) :
+    total sp c (renormed el c Ael Asp r y) i / total sp c (renormed el c Ael Asp r y) h =
+      total sp c refv i / total sp c refv h := by
+  have := renorm_ratio sp el c Ael Asp y (total sp c y h) r (setRef1 sp c refv h) hH hsolve h i hh hi
+    (setRef1_h sp c refv h href)
+  simpa [total, renormed, setRef1] using this
+
+/-- **C16 (driver, identity).** With the vector itself as the reference (`SetReferenceAbund(y, 1)`) the
+    all-ones vector solves the generated system, and with it every factor is 1: `Renorm` is the identity. -/
+theorem driver_identity (sp : Finset S) (el : Finset E) (c : S → E → K) (Ael : E → K) (Asp : S → K)
+    (y : S → K) (h : E) (hat : AllAtomic el c Ael Asp sp) (hA : ∀ s ∈ sp, Asp s ≠ 0) :
+    (∀ i, ∑ e ∈ el, M sp c Ael Asp y (total sp c y h) i e * (1 : K) = setRef1 sp c y h i) ∧
+    (∀ s ∈ sp, renormed el c Ael Asp (fun _ => 1) y s = y s) := by
+  constructor
+  · intro i
+    exact ones_solves sp el c Ael Asp y (total sp c y h) hat hA i
+  · intro s hs
+    unfold renormed
+    rw [identity_factor sp el c Ael Asp hat s hs (hA s hs), mul_one]
+
 /-- **C16 (electrons).** The generated factor of an electron is the literal `1.0`. -/
 theorem electron_untouched (elemMass : List Nat) (s : Renorm.RSpec) (h : s.electron = true) :
     Renorm.factor elemMass s = none := by
